@@ -59,7 +59,7 @@ type NodeResult struct {
 }
 
 type Result struct {
-	Error    string       `json:"error,omitempty"`   // the scenario could not be driven (an event failed)
+	Error    string       `json:"error,omitempty"`    // the scenario could not be driven (an event failed)
 	Problems []string     `json:"problems,omitempty"` // property-level observations
 	Nodes    []NodeResult `json:"nodes"`
 	Events   int          `json:"events"`
